@@ -413,6 +413,7 @@ class UniformMPS(MPS):
         obj.norm = hdf5_loader.get_attr(h5gr, 'norm')
         obj.valid_umps = hdf5_loader.get_attr(h5gr, 'valid_umps')
         obj.form = [None] * len(obj._AR)
+        obj.diagonal_gauge = False  # (the gauge of the saved C is not recorded: re-done on demand)
 
         obj.grouped = hdf5_loader.get_attr(h5gr, 'grouped')
         obj._transfermatrix_keep = hdf5_loader.get_attr(h5gr, 'transfermatrix_keep')
